@@ -352,8 +352,11 @@ func build(tier string) ([]runner.Instance, time.Duration) {
 					}
 					for _, rel := range rels {
 						gb := bound
-						if n == 2 && s.blocking && strings.HasPrefix(s.name, "deque.") && tier != "thorough" {
-							gb = bound - 1 // two parked deque waiters wake each other: long executions
+						if n == 2 && s.blocking && strings.HasPrefix(s.name, "deque.") && tier != "thorough" && !(rel == "cancel" && a == 0) {
+							// two parked deque waiters wake each other: long executions. Kept at the
+							// full bound without additions, released by cancelling (who is woken
+							// when only one of two parked waiters is cancelled)
+							gb = bound - 1
 						}
 						out = append(out, runner.Instance{Group: "grow/" + s.name, Name: fmt.Sprintf("grow/%s/pre=%d,adds=%d,iters=%d,release=%s", s.name, pre, a, n, rel), Bound: gb, Scenario: grow(s, pre, a, n, rel)})
 					}
